@@ -26,6 +26,8 @@ type resendState struct {
 	messageStash          map[int]*Message
 	currentResendRangeEnd int
 	resendRangeEnd        int
+	// epoch is the session's count of sequence-number resets when the recovery began.
+	epoch int64
 }
 
 func (s resendState) String() string { return "Resend" }
@@ -45,9 +47,21 @@ func (s resendState) Timeout(session *session, event internal.Event) (nextState 
 }
 
 func (s resendState) FixMsgIn(session *session, msg *Message) (nextState sessionState) {
+	if s.epoch != session.seqNumEpoch.Load() {
+		// The sequence numbers have been reset since the recovery began (ResetSeqTime, ResetSession):
+		// the requested range and the kept messages belong to the abandoned numbering.
+		session.State = inSession{}
+		return inSession{}.FixMsgIn(session, msg)
+	}
+
 	nextState = inSession{}.FixMsgIn(session, msg)
 
 	if !nextState.IsLoggedOn() {
+		return
+	}
+
+	if s.epoch != session.seqNumEpoch.Load() {
+		// This message reset the sequence numbers (a Logon accepted with ResetOnLogon=Y): the recovery ends.
 		return
 	}
 
